@@ -98,7 +98,21 @@ def lib_commands(rec, vec_overload):
         slot = "s%d" % si
         cmds.append("new %s %s %s%d" % (slot, ins["t"], ins["api"], ins["b"]))
         plan.append(("new", si, None, None))
-        if ins["op"] == "interp":
+        if "steps" in ins:
+            # one object, several calls (mode H): setBC/setBCInt, [getX() = g], Interpolate/Fit per step
+            for j, st in enumerate(ins["steps"]):
+                if j > 0:
+                    cmds.append("bc %s %s%d" % (slot, st["api"], st["b"]))
+                    plan.append(("ok", si, None, None))
+                else:
+                    cmds[-1] = "new %s %s %s%d" % (slot, ins["t"], st["api"], st["b"])
+                if st["g"]:
+                    cmds.append("setgrid %s %d %s" % (slot, len(st["g"]), " ".join(fx(k) for k in st["g"])))
+                    plan.append(("ok", si, None, None))
+                cmds.append("%s %s %d %s %s" % (st["op"], slot, len(st["k"]), " ".join(fx(k) for k in st["k"]),
+                                                " ".join(fy(v) for v in st["y"])))
+                plan.append(("build", si, None, None))
+        elif ins["op"] == "interp":
             d = rec["data"][ins["d"] - 1]
             cmds.append("interp %s %d %s %s" % (slot, len(d["k"]), " ".join(fx(k) for k in d["k"]),
                                                 " ".join(fy(v) for v in d["y"])))
@@ -214,6 +228,8 @@ def lib_check(ctx, rec, out, plan, exact_abs):
             scale += abs(cf * o)
             csum += abs(cf)
         tol = 1e-9 * scale + 1e-10 * csum * maxy
+        if clause.startswith("history-independence"):
+            tol = 1e-12 * scale + 1e-12          # same arithmetic on the same inputs: exact
         if not (abs(res) <= tol):
             pts = [(t[j], t[j + 1], "S" if t[j + 2] == 0 else "S'", t[j + 3] / XD) for j in range(0, len(t), 4)]
             ctx.violation("%s:%s" % (inst_key(rec, si), clause),
@@ -505,7 +521,26 @@ def run(ctx):
         run_lib(ctx, exe, recs, "pairs", 1e-10)
         del recs
 
-    # 5. the real csg_resample
+    # 5. call histories on one object (mode H): history independence
+    res = vlib.tlc("spline", "MCHist" + tier, cfg="MCHist" + tier + ".cfg", workers=WORKERS, timeout=1500, heap="4g")
+    vlib.tlc_must_hold(res, "SplineHist: abstract state = last call (+ inherited grid)")
+    ctx.add_tlc("MCHist" + tier, res)
+    hist = res.records
+    if not ctx.quick:
+        res = vlib.tlc("spline", "MCHistSim", cfg="MCHistSim.cfg", workers=WORKERS, timeout=1500, heap="4g",
+                       simulate=400, depth=7, seed=ctx.seed)
+        vlib.tlc_must_hold(res, "SplineHist simulation")
+        ctx.add_tlc("MCHistSim(simulate)", res)
+        hist += res.records
+    run_lib(ctx, exe, hist, "history")
+    ctx.traces += len(hist)
+    if hist:
+        ctx.sample({"history_vector": {"type": hist[-1]["inst"][0]["t"],
+                                       "calls": [(st["b"], st["op"], st["k"], st["g"]) for st in hist[-1]["inst"][0]["steps"]]}})
+    ctx.extra["call_histories"] = len(hist)
+    del hist
+
+    # 6. the real csg_resample
     recs = _tlc(ctx, "MCResample" + tier, "Resample: flag loops = declarative rule, grid pinning",
                 env={"C12_PICK": ctx.seed})
     run_resample(ctx, resample, recs)
